@@ -152,10 +152,21 @@ def gen_cases(tier, seed):
                     terms.append(t2)
         finally:
             G.POOLS.update(saved)
+        explicit = r.random() < 0.35
+        held = False
+        if explicit and len(terms) == 1 and r.random() < 0.6:
+            # an index that occurs twice is declared a target (only possible with
+            # explicit targets) ...
+            twice = [s_ for s_, n_ in ir.term_indices(first).items() if n_ == 2]
+            if twice:
+                tg = sorted(tg + [r.choice(twice)])
+            # ... on Term objects that were created (and queried) *before* the
+            # targets of their expression were set
+            held = r.random() < 0.6
         cases.append({'id': f'C08-{tier[0]}{seed}-{k:05d}-ren', 'kind': 'rename',
                       'terms': terms, 'targets': tg, 'spin': spin,
                       'mode': r.choice(['lowest', 'generic']),
-                      'explicit': r.random() < 0.3,
+                      'explicit': explicit, 'held_terms': held,
                       'mseed': r.randrange(1 << 30)})
         k += 1
     # long chains: more contracted indices of one space than un-numbered names
@@ -386,9 +397,27 @@ def run_rename(case, res):
         reg = Indices()
         handed_out = {(sp, spin, n) for sp, d in reg._symbols.items()
                       for spin, dd in d.items() for n in dd}
-    R = lib_call(E.copy().substitute_contracted if mode == 'lowest'
-                 else E.copy().substitute_with_generic,
-                 refusals=('Inputerror', 'NotImplementedError', 'ValueError'))
+    if case.get('held_terms'):
+        def held_route():
+            from sympy import Add
+            E0 = Expr(e)
+            held = E0.terms
+            for t_ in held:       # the terms are used before the targets are set
+                t_.target, t_.contracted
+            E0.set_target_idx(tg)
+            out = Add(*[(t_.substitute_contracted(return_sympy=True)
+                         if mode == 'lowest' else
+                         t_.substitute_with_generic(return_sympy=True))
+                        for t_ in held])
+            return Expr(out, target_idx=tg)
+        R = lib_call(held_route,
+                     refusals=('Inputerror', 'NotImplementedError', 'ValueError'))
+        res.count('held_term_routes')
+    else:
+        R = lib_call(E.copy().substitute_contracted if mode == 'lowest'
+                     else E.copy().substitute_with_generic,
+                     refusals=('Inputerror', 'NotImplementedError',
+                               'ValueError'))
     res.count('rename_cases')
     n_o, n_v = case.get('dims') or ((4, 4) if case['spin'] else (2, 3))
     model = tm.Model(n_o, n_v, seed=case['mseed'], spin=case['spin'])
